@@ -336,3 +336,20 @@ CHECKS["C20"] = dict(
     assumptions=_SOCK_ASSUME,
     jobs=[dict(name="sock", pkg="./sock", go=GO, test="TestC20", shards=(8, 16), checks=(30, 500), timeout=(600, 3000))],
 )
+
+CHECKS["C12"] = dict(
+    rule=("enumerated: every payload length 0..254 (outbound) and every L_Data kind x APCI 0..15 x control/data unit x group/individual "
+          "destination (inbound) through both group clients; rapid: group events (command read/response/write, any source and "
+          "destination, payload lengths dense around 0/15/16/254, first byte 0..255) sent through a group tunnel / group router, "
+          "streams of 1..40 inbound cEMI messages of every kind (L_Data req/con/ind, L_Raw.*, L_Busmon, unsupported) with both address "
+          "types, and end-to-end pairs relayed as a gateway does (bytes decoded, request turned into indication). Every case is "
+          "non-trivial; distinct by plan."),
+    level_text=("Sampled events and message streams plus the enumerated sub-spaces; outbound frames are read by the independent reference "
+                "decoder (group flag, hop count 6, low priority, standard-frame flag <=> payload <= 15 bytes, application code, payload, "
+                "addresses, exactly one frame per Send); inbound events must equal the reference filter-map of the injected stream in "
+                "order; end-to-end equality up to the two wire-format exceptions; the group channel closes with the client."),
+    level_note="Trusted: harness/common/ref.go (reference decoder), memsock, the hook constructors VerifNewGroupTunnel / VerifNewGroupRouter.",
+    technique="enumeration + rapid-generated events and message streams; differential against an independent reference decoder and a reference filter-map",
+    assumptions=_RTR_ASSUME[:1],
+    jobs=[dict(name="real", pkg="./rtr", go=GO, test="TestC12", shards=(2, 16), checks=(1500, 20000), timeout=(600, 3000))],
+)
